@@ -1,7 +1,7 @@
 (* C04 — each needed operand is evaluated once, left to right; unneeded ones never. Property theorems only (proofs: TraceFacts.v).
    eval_t is the extracted interpreter; its second component is the sequence of lookups and native calls with argument values. *)
 Require Import ZArith NArith Bool List Arith. Import ListNotations.
-Require Import F64 Dec Types Generic Lang TraceFacts Spec SpecFacts GenInterp InterpFacts.
+Require Import F64 Dec Types Generic Lang TraceFacts Spec SpecFacts InterpTypes GenEvalArms.
 Notation res_of E e := (fst (eval_t E e)).
 Notation tr_of E e := (snd (eval_t E e)).
 
@@ -60,5 +60,3 @@ Theorem C04_evaluation_skeleton_is_the_codes :
                       (Some Equal, PUndef, GEqUndefLeft); (Some NotEqual, PUndef, GNeUndefLeft); (None, PErr, GErrLeft)] /\
   gen_boolean_as_modelled = true /\ gen_ternary_as_modelled = true /\ gen_get_values_as_modelled = true.
 Proof. repeat split; reflexivity. Qed.
-Theorem C04_binary_is_the_table : forall o rl rr, Some (bin_combine o rl rr) = tab_binary o rl rr.
-Proof. exact bin_combine_is_the_table. Qed.
